@@ -18,6 +18,7 @@ package boltz
 
 import (
 	"bytes"
+	"context"
 	"fmt"
 	"github.com/openziti/foundation/v2/errorz"
 	"github.com/openziti/foundation/v2/stringz"
@@ -1034,8 +1035,23 @@ func (index *fkDeleteCascadeConstraint) ProcessBeforeDelete(ctx *IndexingContext
 		}
 
 		if index.cascadeType == CascadeDelete {
+			// entities whose delete is already in progress further up the call stack (self references and
+			// reference cycles) must not be deleted again, otherwise the cascade recurses without bound
+			inProgress := cascadeDeletesInProgress(ctx.Ctx)
+			self := index.symbol.GetLinkedType().GetEntityType() + "/" + string(ctx.RowId)
+			if _, found := inProgress[self]; found {
+				return
+			}
+			inProgress[self] = struct{}{}
+			defer delete(inProgress, self)
+
 			cursor := targetStore.IterateValidIds(ctx.Tx(), filter)
 			for cursor.IsValid() {
+				if _, found := inProgress[targetStore.GetEntityType()+"/"+string(cursor.Current())]; found {
+					cursor.Next()
+					continue
+				}
+
 				if ctx.ErrHolder.SetError(targetStore.DeleteById(ctx.Ctx, string(cursor.Current()))) {
 					return
 				}
@@ -1046,6 +1062,26 @@ func (index *fkDeleteCascadeConstraint) ProcessBeforeDelete(ctx *IndexingContext
 			}
 		}
 	}
+}
+
+type cascadeDeletesKey struct{}
+
+// cascadeDeletesInProgress returns the set of entities (entityType/id) whose cascading delete is currently being
+// processed in the given mutate context
+func cascadeDeletesInProgress(ctx MutateContext) map[string]struct{} {
+	if ctx.Context() != nil {
+		if result, ok := ctx.Context().Value(cascadeDeletesKey{}).(map[string]struct{}); ok {
+			return result
+		}
+	}
+	result := map[string]struct{}{}
+	ctx.UpdateContext(func(c context.Context) context.Context {
+		if c == nil {
+			c = context.Background()
+		}
+		return context.WithValue(c, cascadeDeletesKey{}, result)
+	})
+	return result
 }
 
 // escapeZqlString returns s as it must be written between the quotes of a ZitiQL
